@@ -104,18 +104,25 @@ partial def toProg3 (sx : Sx) : Option Closed.Prog3 :=
     | some (st, p) => (toProg3 p).map fun p => .stage st p
     | none => none
 
-/-- Boolean mirror of `Closed.Prog3.ok` (the side condition of `prog3_correct`): every `take n` has `n ≥ 1`, `flatmap` over a linear program,
-no empty `concat!` — used only to COUNT how many programs of the stream are in the theorem's domain -/
+/-- Boolean mirrors of `Closed.Prog3.linear` / `tf2` / `ok2` — used only to COUNT how many programs of the stream are in the domain of the
+correctness theorem (`prog3_correct2`) -/
 partial def linB : Closed.Prog3 → Bool
   | .src _ => true
   | .stage _ p => linB p
   | _ => false
+partial def tf2B : Closed.Prog3 → Bool
+  | .src _ => true
+  | .stage s p => (match s with | .take _ => false | _ => true) && tf2B p
+  | .concat2 p q => tf2B p && tf2B q
+  | .concatN ps => ps.all tf2B
+  | .flatRep _ p => tf2B p
+/-- mirror of `Closed.Prog3.ok2` (Closed/Prog3Wide.lean), the widest domain of the correctness theorem -/
 partial def okB : Closed.Prog3 → Bool
   | .src _ => true
   | .stage s p => (match s with | .take n => n > 0 | _ => true) && okB p
   | .concat2 p q => okB p && okB q
   | .concatN ps => !ps.isEmpty && ps.all okB
-  | .flatRep _ p => linB p && okB p
+  | .flatRep _ p => (linB p || tf2B p) && okB p
 
 /-- `flatten(map(|a| take(k)(from_iter(1 .. a % 4)))(A))`: the `tri` family of the stream (inner sources are two-machine pipelines) -/
 def flatTriM (k : Nat) (A : Closed.AnyM) : Closed.AnyM :=
